@@ -115,6 +115,11 @@ def run_history(case, ctx, bm):
         return Bm[:3, :3].T @ v, Tm[:3, :3].T @ (-v)
 
     def state():
+        for nm, t in (("bottom", sp.getBottomT()), ("top", sp.getTopT()), ("relative", sp.getCurrentLocalTransform())):
+            sd = tol.tm_sides_differ(t)
+            if sd is not None and sd[0] > sd[1]:
+                ctx.clause("I3.relative")
+                ctx.violation("I3.relative", "published_pose_reads_differently/" + nm, {"err": sd[0], "tol": sd[1]}, case)
         Bm = sp.getBottomT().gTM()
         Tm = sp.getTopT().gTM()
         return Bm, Tm, np.asarray(sp.getBottomJoints(), dtype=float).copy(), np.asarray(sp.getTopJoints(), dtype=float).copy(), \
